@@ -197,7 +197,12 @@ def check(run, repo):
         'spellings; every get_delta_* for the four (rev, act) combinations is final minus initial (ratio for q); '
         'reversal flips the sign; forward minus reverse activation equals the reaction change; unclamped *_act '
         'getters equal delta(act=True); Keq = exp(-delta G/RT) and K_f*K_r = 1; a keyword block addressed to one '
-        'species reaches only that species; caller-supplied dictionaries are unchanged after the call.')
+        'species reaches only that species; caller-supplied dictionaries are unchanged after the call. The values '
+        'with units (state, change, activation) are decided in J/mol and a second unit. A second model reaction '
+        '(H2 + H2O + PT(S) = [H2O2(S)] = H2O(S) + h2o + PT(B); gas and surface species, a CatSite whose bulk species '
+        'takes part) decides that the sums run over all species whatever their site, that a block is addressed by '
+        'the exact name (stems, prefixes, case variants receive nothing) and that the order of the keyword '
+        'arguments does not matter.')
     run.assumptions = ['species getters are arbitrary functions of the keyword arguments they accept '
                        '(uninterpreted atoms); _force_pass_arguments modelled by its documented contract']
     run.undecided = ['numerical values; species whose getters ignore their arguments']
